@@ -39,10 +39,13 @@ def _ladder(run, name, tickterm, facts=None, tm=TM, R1="R1", tag=""):
     name = tag + name
     run.touch(fn)
     pv = Prov(fn, cut="all")
-    ratio = pv.var_by_name("ratio")
+    # the running product: the named local with the most definitions (its name does not matter)
+    cands = sorted(((len([d for d in pv.defs.get(l, []) if d[2] is None]), l) for l in range(fn.argc + 1, len(fn.locals)) if fn.locals[l].get("n")), reverse=True)
+    ratio = cands[0][1] if cands and cands[0][0] >= NBITS else None
     if ratio is None:
-        run.missing(R1, "ladder-var@" + name, "no running `ratio` variable in " + name)
+        run.missing(R1, "ladder-var@" + name, "no running product variable (a local assigned once per rung) in " + name)
         return None
+    rname = fn.locals[ratio]["n"]
     ats = A.atoms(fn, cut="all")
     masks = []
     for at in ats:
@@ -82,12 +85,12 @@ def _ladder(run, name, tickterm, facts=None, tm=TM, R1="R1", tag=""):
         if len(td) == 1 and not fd:
             t = td[0][1]
             if name.endswith("positive_tick"):
-                if t[0] == "call" and t[1].endswith("mul_shift_96") and strip(t[2][0]) == ("var", "ratio", ratio):
+                if t[0] == "call" and t[1].endswith("mul_shift_96") and strip(t[2][0]) == ("var", rname, ratio):
                     lit = _const(t[2][1])
             else:
                 if t[0] == "bin" and t[1] == "Shr" and _const(t[3]) == 64:
                     mu = strip(t[2])
-                    if mu[0] == "bin" and mu[1].startswith("Mul") and strip(mu[2]) == ("var", "ratio", ratio):
+                    if mu[0] == "bin" and mu[1].startswith("Mul") and strip(mu[2]) == ("var", rname, ratio):
                         lit = _const(mu[3])
         if lit is None:
             ok_all = False
@@ -105,9 +108,9 @@ def _ladder(run, name, tickterm, facts=None, tm=TM, R1="R1", tag=""):
     shift = None
     if len(rets) == 1:
         r = rets[0]
-        if r == ("var", "ratio", ratio):
+        if r == ("var", rname, ratio):
             shift = 0
-        elif r[0] == "bin" and r[1] == "Shr" and strip(r[2]) == ("var", "ratio", ratio):
+        elif r[0] == "bin" and r[1] == "Shr" and strip(r[2]) == ("var", rname, ratio):
             shift = _const(r[3])
     want = 32 if name.endswith("positive_tick") else 0
     run.check(R1, "final-shift@" + name, shift == want, "%s returns %s; expected ratio >> %d" % (name, [sh(r, 60) for r in rets], want), loc=fn.loc(), detail="returns ratio >> %d" % want)
@@ -238,7 +241,9 @@ def R3_inverse(run):
 
 
 def check_inverse(run, facts, tm, fnname, price_fn, params, rule="R3", tag=""):
-    """Shape of the inverse: loop bound, base change, candidates, final choice. `params` = accepted names of the input price."""
+    """Shape of the inverse: loop bound, base change, candidates, final choice. Variables are found by the shape of
+    their definitions, never by name. `params` = accepted names of the input price parameter."""
+    from analysis.prov import prov_assuming
     cv = facts.const_value
     k, p, lo, up = cv(tm + "LOG_B_2_X32"), cv(tm + "BIT_PRECISION"), cv(tm + "LOG_B_P_ERR_MARGIN_LOWER_X64"), cv(tm + "LOG_B_P_ERR_MARGIN_UPPER_X64")
     fn = facts.need_fn(tm + fnname)
@@ -246,42 +251,92 @@ def check_inverse(run, facts, tm, fnname, price_fn, params, rule="R3", tag=""):
     pv = Prov(fn, cut="all")
     ats = A.atoms(fn, cut="all")
 
-    def var_is(t, name):
+    def expand(t, depth=0):
+        """Replace single-definition variables by their definition (bounded)."""
         t = strip(t)
-        if t[0] == "cast":
-            t = strip(t[1])
-        return t[0] == "var" and t[1] == name
-    loop = [at for at in ats if at.cond() and at.cond()[0] == "Lt" and var_is(at.cond()[1], "precision") and const_val(at.cond()[2]) == p]
-    run.check(rule, tag + "precision-loop", len(loop) == 1, "the log2 loop is not bounded by `precision < BIT_PRECISION`", loc=fn.loc(), detail="while bit > 0 && precision < %s" % p)
-    eq = [at for at in ats if at.cond() and at.cond()[0] in ("Eq", "Ne") and {strip(at.cond()[1])[1:2], strip(at.cond()[2])[1:2]} == {("tick_low",), ("tick_high",)}]
-    def expand(t):
-        t = strip(t)
+        if depth > 12 or not isinstance(t, tuple):
+            return t
         if t[0] == "var":
             ds = pv.var_defs(t[2])
             if len(ds) == 1:
-                return strip(ds[0][2])
+                return expand(ds[0][2], depth + 1)
+            return t
+        if t[0] in ("bin",):
+            return (t[0], t[1], expand(t[2], depth + 1), expand(t[3], depth + 1))
+        if t[0] in ("cast", "q", "un"):
+            return t[:1] + tuple(expand(x, depth + 1) if isinstance(x, tuple) else x for x in t[1:])
+        if t[0] == "call":
+            return (t[0], t[1], tuple(expand(x, depth + 1) for x in t[2])) + t[3:]
+        return t
+
+    def unwrap(t):
+        t = strip(t)
+        while t[0] in ("cast", "q") or (t[0] == "call" and t[1].rsplit("::", 1)[-1] in ("try_into", "unwrap", "into") and len(t[2]) == 1):
+            t = strip(t[1] if t[0] != "call" else t[2][0])
+        return t
+
+    def candidate(t, op, margin):
+        """inner log term X if t is ((X op margin) >> 64) possibly converted, else None"""
+        t = unwrap(expand(t))
+        if t[0] == "bin" and t[1] == "Shr" and _const(t[3]) == 64:
+            inner = unwrap(t[2])
+            if inner[0] == "bin" and inner[1].startswith(op) and _const(inner[3]) == margin:
+                return unwrap(inner[2])
+        return None
+    loop = [at for at in ats if at.cond() and at.cond()[0] == "Lt" and unwrap(at.cond()[1])[0] == "var" and const_val(at.cond()[2]) == p and len(pv.var_defs(unwrap(at.cond()[1])[2])) >= 2]
+    run.check(rule, tag + "precision-loop", len(loop) == 1, "the log2 loop is not bounded by `<counter> < BIT_PRECISION`", loc=fn.loc(), detail="while bit > 0 && precision < %s" % p)
+    named = [l for l in range(fn.argc + 1, len(fn.locals)) if fn.locals[l].get("n")]
+    lows = [l for l in named if len(pv.var_defs(l)) == 1 and candidate(pv.var_defs(l)[0][2], "Sub", lo) is not None]
+    highs = [l for l in named if len(pv.var_defs(l)) == 1 and candidate(pv.var_defs(l)[0][2], "Add", up) is not None]
+    ok = len(lows) == 1 and len(highs) == 1
+    logt = None
+    if ok:
+        la, ha = candidate(pv.var_defs(lows[0])[0][2], "Sub", lo), candidate(pv.var_defs(highs[0])[0][2], "Add", up)
+        ok = la == ha
+        logt = la
+    run.check(rule, tag + "candidates", ok, "there are no two candidates (log - LOWER) >> 64 and (log + UPPER) >> 64 over the same log term", loc=fn.loc(), detail="tick_low := (log - L) >> 64; tick_high := (log + U) >> 64")
+    if not ok:
+        return
+    tl, th = lows[0], highs[0]
+    ok = logt[0] == "bin" and logt[1].startswith("Mul") and (_const(logt[3]) == k or _const(logt[2]) == k)
+    run.check(rule, tag + "base-change", ok, "the log term is not log2(p) * LOG_B_2_X32", loc=fn.loc(), detail="log_b(p) := log2(p) * LOG_B_2_X32")
+
+    def is_var(t, local):
+        t = unwrap(t)
+        return t[0] == "var" and t[2] == local
+    eq = [at for at in ats if at.cond() and at.cond()[0] in ("Eq", "Ne") and {unwrap(at.cond()[1])[2:3], unwrap(at.cond()[2])[2:3]} == {(tl,), (th,)}]
+
+    def shallow(t):
+        """Definition of a single-definition variable, one level only (arguments stay variables)."""
+        t = unwrap(t)
+        if t[0] == "var":
+            ds = pv.var_defs(t[2])
+            if len(ds) == 1:
+                return unwrap(ds[0][2])
         return t
 
     def is_price_call(t):
-        return is_call(expand(t), price_fn)
-    le = [at for at in ats if at.cond() and at.cond()[0] in ("Le", "Ge") and (is_price_call(at.cond()[1]) or is_price_call(at.cond()[2]))]
+        e_ = shallow(t)
+        return e_[0] == "call" and e_[1].endswith(price_fn)
+    le = [at for at in ats if at.cond() and at.cond()[0] in ("Le", "Ge", "Lt", "Gt") and (is_price_call(at.cond()[1]) or is_price_call(at.cond()[2]))]
     ok = len(eq) == 1 and len(le) == 1
     if ok:
         c = le[0].cond()
         lhs_price = is_price_call(c[1])
         op, a, b = (c[0], c[1], c[2]) if lhs_price else (A.SWAP[c[0]], c[2], c[1])
-        a = expand(a)
-        ok = op == "Le" and is_call(a, price_fn) and var_is(a[2][0], "tick_high") and (is_param(b, params[0]) or var_is(b, params[1]) or is_param(b, params[1]))
+        a = shallow(a)
+        bb_ = shallow(b)
+        ok = op == "Le" and is_var(a[2][0], th) and (is_param(bb_, params[0]) or is_param(bb_, params[1]) or
+                                                     (bb_[0] == "call" and len(bb_[2]) == 1 and (is_param(bb_[2][0], params[0]) or is_param(bb_[2][0], params[1]))))
 
         def ret_under(assumptions):
-            from analysis.prov import prov_assuming
             pva = prov_assuming(fn, assumptions, cut="all")
             out = set()
-            for bi, bb in enumerate(fn.blocks):
-                if bb["t"]["k"] == "ret" and pva.flow.state_in[bi] is not None:
-                    for x in leaves(pva.local(0, bi, len(bb["s"]))):
-                        x = strip(x)
-                        out.add(x[1] if x[0] == "var" else sh(x, 40))
+            for bi, blk in enumerate(fn.blocks):
+                if blk["t"]["k"] == "ret" and pva.flow.state_in[bi] is not None:
+                    for x in leaves(pva.local(0, bi, len(blk["s"]))):
+                        x = unwrap(x)
+                        out.add({tl: "low", th: "high"}.get(x[2], "?") if x[0] == "var" else sh(x, 40))
             return out
         if ok:
             e = eq[0]
@@ -290,34 +345,12 @@ def check_inverse(run, facts, tm, fnname, price_fn, params, rule="R3", tag=""):
             r_eq = ret_under([(e, same)])
             r_hi = ret_under([(e, not same), (le[0], le_true)])
             r_lo = ret_under([(e, not same), (le[0], not le_true)])
-            ok = r_eq == {"tick_low"} and r_hi == {"tick_high"} and r_lo == {"tick_low"}
+            ok = r_eq <= {"low", "high"} and len(r_eq) == 1 and r_hi == {"high"} and r_lo == {"low"}
             if not ok:
-                run.bad(rule, tag + "final-choice", "returns: equal => %s, price(tick_high) <= input => %s, otherwise => %s; expected tick_low / tick_high / tick_low" % (sorted(r_eq), sorted(r_hi), sorted(r_lo)), loc=fn.loc())
+                run.bad(rule, tag + "final-choice", "returns: equal => %s, price(high) <= input => %s, otherwise => %s; expected either / high / low" % (sorted(r_eq), sorted(r_hi), sorted(r_lo)), loc=fn.loc())
                 return
-    run.check(rule, tag + "final-choice", ok, "the final selection is not `if tick_low == tick_high {tick_low} else if price(tick_high) <= input {tick_high} else {tick_low}`", loc=fn.loc(),
+    run.check(rule, tag + "final-choice", ok, "the final selection is not `if low == high {low} else if price(high) <= input {high} else {low}`", loc=fn.loc(),
               detail="one exact comparison against price(tick_high)")
-    tl = pv.var_by_name("tick_low")
-    th = pv.var_by_name("tick_high")
-    ok = tl is not None and th is not None
-    if ok:
-        def shape(local, op, margin):
-            ds = pv.var_defs(local)
-            if len(ds) != 1:
-                return False
-            sub = [s for s in subterms(ds[0][2]) if s[0] == "bin" and s[1] == "Shr" and _const(s[3]) == 64]
-            if len(sub) != 1:
-                return False
-            inner = strip(sub[0][2])
-            return inner[0] == "bin" and inner[1].startswith(op) and var_is(inner[2], "logbp_x64") and _const(inner[3]) == margin
-        ok = shape(tl, "Sub", lo) and shape(th, "Add", up)
-    run.check(rule, tag + "candidates", ok, "tick_low / tick_high are not (logbp - LOWER) >> 64 and (logbp + UPPER) >> 64", loc=fn.loc(), detail="tick_low := (log - L) >> 64; tick_high := (log + U) >> 64")
-    lb = pv.var_by_name("logbp_x64")
-    ok = lb is not None
-    if ok:
-        ds = pv.var_defs(lb)
-        t = strip(ds[0][2]) if len(ds) == 1 else ("x",)
-        ok = t[0] == "bin" and t[1].startswith("Mul") and var_is(t[2], "log2p_x32") and _const(t[3]) == k
-    run.check(rule, tag + "base-change", ok, "logbp_x64 is not log2p_x32 * LOG_B_2_X32", loc=fn.loc(), detail="log_b(p) := log2(p) * LOG_B_2_X32")
 
 
 RULES = [R1_R2_ladders, R3_inverse]
